@@ -48,7 +48,25 @@ func c13(cx *Ctx, r *ev.Report) {
 	ruleW := "WATCHER-PROTOCOL: the goroutine started by Run captures nothing rooted in the CPU; it waits on Done() of the derived context, then stores that context's/the parent's Err() into the error cell, then publishes with an atomic store of a non-zero flag - in that order, with no other blocking operation"
 	ruleR := "RACE-FREE-HANDOFF: in Run every access to the flag cell is a sync/atomic call and every read of the error cell is dominated by the positive cancellation test (release/acquire through the atomic pair)"
 	ruleL := "NO-LEAK: the CancelFunc of the WithCancel call whose context the watcher waits on is deferred before the goroutine starts, and every return runs the deferred calls"
-	if ri.goInstr == nil {
+	if sem := cx.runSem(); sem.err == nil {
+		// decided on the value summary: the goroutine (wherever it is started -
+		// in Run or in a helper Run calls) is interpreted on its own trace
+		if !sem.hasWatcher {
+			r.Hold("C13/watcher-protocol/func=(*CPU).Run", ruleW+" (no watcher goroutine: cancellation is polled synchronously)", pos, "value")
+			r.Hold("C13/race-free-handoff/func=(*CPU).Run", ruleR+" (nothing shared)", pos, "value")
+			r.Hold("C13/no-leak/func=(*CPU).Run", ruleL+" (no goroutine)", pos, "value")
+		} else {
+			w := append([]string{}, sem.watch...)
+			sort.Strings(w)
+			r.Check(len(w) == 0, "C13/watcher-protocol/func=(*CPU).Run", ruleW, pos, "value", w...)
+			w = append([]string{}, sem.race...)
+			sort.Strings(w)
+			r.Check(len(w) == 0, "C13/race-free-handoff/func=(*CPU).Run", ruleR, pos, "value", w...)
+			w = append([]string{}, sem.leak...)
+			sort.Strings(w)
+			r.Check(len(w) == 0, "C13/no-leak/func=(*CPU).Run", ruleL, pos, "value", w...)
+		}
+	} else if ri.goInstr == nil {
 		// idiom without a goroutine (e.g. ctx.Err() polled in the loop): nothing to leak or race
 		goN := 0
 		for _, b := range ri.run.Blocks {
